@@ -90,16 +90,31 @@ Theorem C04_distinct_groups_distinct_labels : forall fmt st k1 k2 l1 l2,
 Proof. exact distinct_groups_distinct_labels. Qed.
 Print Assumptions C04_distinct_groups_distinct_labels.
 
-(* THE FULL STATEMENT IS FALSE OF THE CODE AS IT IS (observation O2): three boundaries sharing one
-   .3e form give two distinct, well-formed, sorted groups the same 'str' label *)
-Theorem C04_str_labels_refuted :
-  WF (st_order o2_state) /\ coherent o2_fmt o2_state /\ leaders_sorted o2_state /\
-  lget (VNum 202302) (st_lpv o2_state) = lget (VNum 202303) (st_lpv o2_state) /\
-  transform_cell o2_state (VNum 202302) = transform_cell o2_state (VNum 202303) /\
-  transform_cell o2_state (VNum 202302) =
-    Ok (OLab (LVal (VStr "2.023e+05 < x <= 2.023e+05"))).
-Proof. exact str_labels_refuted. Qed.
-Print Assumptions C04_str_labels_refuted.
+(* ... and, with the digit rule of format_quantiles (repaired code: digits are added while
+   distinct boundaries share a formatted form, Model/FormatRule.v), ALWAYS for distinct finite
+   leaders — provided some table of the list (in practice 17 digits) separates them *)
+Theorem C04_str_labels_distinct : forall tables nan s g,
+  nan = VStr s -> no_space s = true ->
+  NoDup (finite_leaders nan (keys g)) ->
+  (exists t, In t tables /\ NoDup (map (fmt_lookup t) (finite_leaders nan (keys g)))) ->
+  (forall t x, In t tables -> In x (finite_leaders nan (keys g)) -> no_space (fmt_lookup t x) = true) ->
+  NoDup (get_labels Quant OStr (fmt_of tables nan g) nan (keys g)).
+Proof. exact str_labels_distinct. Qed.
+Print Assumptions C04_str_labels_distinct.
+
+(* observation O2 (202301/202302/202303 all print as 2.023e+05 with 3 digits; before the repair
+   two distinct groups shared the label "2.023e+05 < x <= 2.023e+05", lemma str_labels_refuted
+   in Proofs/LabelsProofs.v): the rule now selects 5 digits and the groups are told apart *)
+Example C04_o2_repaired :
+  let tables := [ [(VNum 202301, "2.023e+05"); (VNum 202302, "2.023e+05"); (VNum 202303, "2.023e+05")];
+                  [(VNum 202301, "2.0230e+05"); (VNum 202302, "2.0230e+05"); (VNum 202303, "2.0230e+05")];
+                  [(VNum 202301, "2.02301e+05"); (VNum 202302, "2.02302e+05"); (VNum 202303, "2.02303e+05")];
+                  [(VNum 202301, "2.023010e+05"); (VNum 202302, "2.023020e+05"); (VNum 202303, "2.023030e+05")] ]%string in
+  let st := fitted_state_auto Quant (of_list [VNum 202301; VNum 202302; VNum 202303; VPInf])
+              (VStr "__NAN__") (VStr "__OTHER__") true OStr tables in
+  transform_cell st (VNum 202302) = Ok (OLab (LVal (VStr "2.02301e+05 < x <= 2.02302e+05"))) /\
+  transform_cell st (VNum 202303) = Ok (OLab (LVal (VStr "2.02302e+05 < x <= 2.02303e+05"))).
+Proof. cbv zeta. split; vm_compute; reflexivity. Qed.
 
 (* two boundaries sharing one form are still told apart: "distinct iff injective" fails <- *)
 Theorem C04_two_equal_bounds_still_distinct :
@@ -115,7 +130,7 @@ Example C04_nonvacuous :
              [(VNum 1, [VNum 1]); (VNum 5, [VNum 3; VNum 5]); (VPInf, [VPInf]);
               (VStr "__NAN__", [VStr "__NAN__"])]
              (VStr "__NAN__") (VStr "__OTHER__") false OStr
-             [(VNum 1, "1.000e+00"%string); (VNum 5, "5.000e+00"%string)] 1 [] [] [] (IOk []) in
+             [[(VNum 1, "1.000e+00"%string); (VNum 5, "5.000e+00"%string)]] 1 [] [] [] (IOk []) in
   coherent (t_fmt c) (t_state c) /\ nan_ok (t_state c) /\ sentinel (t_state c) /\
   transform_cell (t_state c) (VNum 4) = Ok (OLab (LVal (VStr "1.000e+00 < x <= 5.000e+00"))) /\
   transform_cell (t_state c) VNaN = Ok OMissing.
